@@ -85,14 +85,17 @@ def build_metafile(case, payload_root, out):
     tree, P, v = case["tree"], case["P"], case["version"]
     if case.get("meta_src", "own") == "own":
         creator = "TorrentFile" if v == 1 else "TorrentAssembler"
-        return create_meta({"creator": creator, "version": v, "P": P}, payload_root, out)
+        return create_meta({"creator": creator, "version": v, "P": P, "align": bool(case.get("align")) and v == 1},
+                           payload_root, out)
     files = [(list(f["path"]), _orig(tree, f)) for f in tree["files"]]
     kw = {}
     if case.get("extra_keys"):
         kw["extra_info"] = {"x-unknown": [1, "a"], "source": "elsewhere"}
         kw["extra_top"] = {"comment": "c", "zzz": 2 ** 40, "url-list": "http://w.example/f", "announce": "http://t.example/a"}
+        kw["attrs"] = True
     raw = refenc.build(case.get("meta_name", tree["name"]), [(list(f.get("meta_path", f["path"])), d) for f, (_, d) in zip(tree["files"], files)],
-                       P, v, single=bool(tree.get("single")), **kw)
+                       P, v, single=bool(tree.get("single")), pads="bep47" if case.get("align") and v == 1 else "none",
+                       trailing_pad=bool(case.get("trailing_pad")), **kw)
     write_file(out, raw)
     return "ok"
 
@@ -189,7 +192,9 @@ def run_rebuild(case):
                     write_file(os.path.join(dest, "unrelated-%d-%d.txt" % (ti, fi)), b"keep me")
                     continue
                 b = {"correct": data, "wrong_full": content("wrongfull/%d/%d" % (ti, fi), len(data), 3),
-                     "shorter": data[:len(data) // 2]}.get(dp, b"")
+                     "shorter": data[:len(data) // 2],
+                     # an interrupted earlier copy: right bytes, then a torn tail
+                     "shorter_dirty": data[:max(0, len(data) * 3 // 4 - 50)] + b"\xee" * min(50, len(data) * 3 // 4)}.get(dp, b"")
                 write_file(dest_path(ti, f), b)
                 pre[(ti, fi)] = b
         os.makedirs(os.path.join(sbx, "abs"), exist_ok=True)
@@ -325,6 +330,7 @@ def run_rebuild(case):
         rec["present_after"] = sum(1 for x in rec["files"] if x["after"] not in ("absent", "n/a"))
         # order of the files in the v1 stream of the (first) metafile: indexes into rec["files"]
         rec["stream_order"] = list(range(1, len(trees[0]["files"]) + 1))
+        rec["stream"] = [{"f": k, "len": f["size"]} for k, f in enumerate(trees[0]["files"], 1)]
         try:
             from .core import bdecode_strict
             with open(mpaths[0], "rb") as fh:
@@ -336,6 +342,10 @@ def run_rebuild(case):
                          if e.get(b"attr") is None]
                 if all(o is not None for o in order) and len(order) == len(idx):
                     rec["stream_order"] = order
+                    # the whole v1 list in order: payload files (index into rec["files"]) and padding entries (f = 0)
+                    rec["stream"] = [{"f": 0, "len": e.get(b"length").val} if e.get(b"attr") is not None else
+                                     {"f": idx[tuple(c.val.decode() for c in e.get(b"path").val)], "len": e.get(b"length").val}
+                                     for e in fl.val]
         except Exception:
             pass
         return rec
